@@ -736,6 +736,19 @@ def rule_6(ctx):
             n += 1
             ctx.expect(S.same(got1, ('Number', w)), anchor, f'models compiled one after the other in one process: {cells[a]} over A1={cells["A1"]}',
                        f'{a} = {cells[a]} evaluates to {got1!r} in a model compiled after another model with the same formula texts; expected {w}')
+    # an evaluation that failed (unknown function in the branch taken) leaves nothing behind on the evaluator: after the input
+    # is changed, the same evaluator gives what a new one gives
+    fcells = {'A1': 4, 'B1': True, 'C1': '=IF(B1,NOSUCHFUNC(A1),A1*2)', 'D1': '=C1+1', 'E1': '=IF(B1,VLOOKUP(1,A1:A1,1,TRUE),D1+1)'}
+    wbf = W.Workbook(ctx, fcells)
+    first = [wbf.value('Sheet1!' + a) for a in ('D1', 'E1', 'C1')]
+    wbf.set_model('Sheet1!B1', False)
+    for a, w in (('C1', 8), ('D1', 9), ('E1', 10)):
+        got_old = wbf.value('Sheet1!' + a)
+        got_new = wbf.value('Sheet1!' + a, key='a new evaluator')
+        n += 1
+        ctx.expect(S.same(got_old, ('Number', w)) and S.same(got_new, ('Number', w)), anchor, f'after failed evaluations and an edit: {a}',
+                   f'{fcells}: D1, E1 and C1 were evaluated and failed ({first!r}); after B1 was set to FALSE the same evaluator gives {got_old!r} for {a} and a new '
+                   f'evaluator {got_new!r}, expected {w}: what a failed evaluation was in the middle of is forgotten')
     # the footprint after n rounds of the same evaluations does not depend on n: whatever outlives an evaluation (module-level
     # values, class attributes, default-argument objects, the model, the evaluators) has the same size after round 2 and round 3
     wb = W.Workbook(ctx, ORDER_CELLS)
